@@ -87,8 +87,10 @@ def make_case(r, root, op):
         os.chmod(p, mode)
         if p.startswith(ldir) and mode in (0o000, 0o311, 0o555, 0o666, 0o444):
             hostile.add(mode)
+    layers_mode = r.choice([0o755, 0o755, 0o755, 0o555, 0o500])       # a <layers> dir without write bit: deleting must fail, not "repair" it
+    os.chmod(layers, layers_mode)
     vp.chown_tree(root)
-    return {"name": name, "top": top, "link_kinds": sorted(kinds), "hostile_modes": sorted(hostile), "layers": layers, "ldir": ldir}
+    return {"name": name, "top": top, "layers_mode": layers_mode, "link_kinds": sorted(kinds), "hostile_modes": sorted(hostile), "layers": layers, "ldir": ldir}
 
 
 def request_for(op, name):
@@ -157,6 +159,13 @@ def run_case(base, idx, seed, op, shim, sh):
                     sh.count("failed_attempts_outside")
         sh.count("mutating_calls_traced", nmut)
         if "err" not in rep:
+            stale = [fn for fn in os.listdir(layers) if fn.startswith(name + ".sbom.")]
+            if stale:
+                sh.violation("old-sboms-remain", "%s returned Ok but the layer's SBOM files %r from before are still there" % (what, stale), case)
+                return
+            if os.path.islink(os.path.join(layers, name + ".toml")):
+                sh.violation("toml-link-remains", "%s returned Ok but %s.toml is still the old symlink" % (what, name), case)
+                return
             v = vp.snapshot(ldir)
             leftovers = [k for k in v if not (k.split(b"/")[0] in (b"env", b"env.build", b"env.launch"))]
             if leftovers or not os.path.isdir(ldir) or os.path.islink(ldir):
@@ -169,7 +178,7 @@ def run_case(base, idx, seed, op, shim, sh):
         if nmut == 0:
             sh.inconclusive.append("case %d: the effect tracer saw no mutating call (shim not loaded?)" % idx)
             return
-        sh.nontrivial.add((info["top"], tuple(info["link_kinds"]), tuple(info["hostile_modes"]), op))
+        sh.nontrivial.add((info["top"], tuple(info["link_kinds"]), tuple(info["hostile_modes"]), op, info["layers_mode"]))
         if info["link_kinds"] and info["hostile_modes"]:
             sh.sample({"op": op, "layer_path_kind": info["top"], "links": info["link_kinds"], "hostile_modes": case["hostile_modes"], "mutating_calls_traced": nmut,
                        "result": "Ok" if "err" not in rep else "Err"}, cap=1)
